@@ -312,3 +312,12 @@ Theorem C05_do_parse_prefix_same : forall c0 pre t1 t2 m1 m2,
   prefix_same (top_fuel c0) (build_self c0) m1 m2.
 Proof. exact do_parse_prefix_same. Qed.
 Print Assumptions C05_do_parse_prefix_same.
+
+(** The full-strength reading of the last sentence ("ALL entries given before the [--] are those of
+    the parse without the tail") is false of the model and of clap: an option in an overrides
+    relation with the positional loses its entry -- the exception [touched] characterises. *)
+Theorem C05_prefix_unrestricted_refuted : exists c0 pre t m1 m2 y,
+  esc_class c0 = true /\ do_parse c0 (pre ++ dashdash :: t) = OOk m1 /\ do_parse c0 (pre ++ dashdash :: []) = OOk m2 /\
+  fm_get y (ms_args m2) <> None /\ fm_get y (ms_args m1) = None.
+Proof. exact prefix_unrestricted_refuted. Qed.
+Print Assumptions C05_prefix_unrestricted_refuted.
